@@ -9,7 +9,7 @@ SRC = "harness/c17_codecs.cpp"
 def run(res, ctx):
     tier = ctx["tier"]
     if tier == "quick":
-        runner.run_harness(res, SRC, "fast", tier, deadline=110, timeout=400, shards=16)
+        runner.run_harness(res, SRC, "fast", tier, deadline=300, timeout=900, shards=16)
     else:
         runner.run_harness(res, SRC, "fast", tier, deadline=1100, timeout=1800, shards=16)
 
